@@ -135,17 +135,32 @@ theorem findLoop_member {name : Name} {r : Nat} {w' : Bool} : ∀ (w : Bool) (ch
     · obtain ⟨f, hf, hr⟩ := findLoop_member _ rest h
       exact ⟨f, by simp [hf], hr⟩
 
+/-- MustNotBeRenamed on a symbol and on everything it is linked to -/
+theorem SUpd.pinLinks {L0 : Nat} : ∀ (fuel : Nat) (syms : Syms) (t : Nat), (t < L0 ∨ NotLab syms t) → LinksOld L0 syms →
+    SUpd L0 syms (pinLinks fuel syms t)
+  | 0, syms, _, _, _ => SUpd.refl _ _
+  | fuel + 1, syms, t, ht, hlo => by
+    simp only [Scopes.pinLinks]
+    split
+    · exact SUpd.refl _ _
+    · next s hs =>
+      have u1 : SUpd L0 syms (Scopes.pin syms t) := SUpd.pin ht
+      split
+      · exact u1
+      · next l hl =>
+        exact u1.trans (SUpd.pinLinks fuel (Scopes.pin syms t) l (Or.inl (hlo t s l hs hl)) (u1.links hlo))
+
 theorem findSymbol_supd {L0 : Nat} (chain : List Frame) (syms : Syms) (n : Name)
-    (hm : ∀ f, f ∈ chain → ∀ m, m ∈ refsOf f.members → m < L0 ∨ NotLab syms m) :
+    (hm : ∀ f, f ∈ chain → ∀ m, m ∈ refsOf f.members → m < L0 ∨ NotLab syms m) (hlo : LinksOld L0 syms) :
     SUpd L0 syms (findSymbol chain syms n).2.1 ∧
     (∀ f, f ∈ (findSymbol chain syms n).1 → ∀ m, m ∈ refsOf f.members → m < L0 ∨ NotLab (findSymbol chain syms n).2.1 m) := by
   unfold findSymbol
   split
   · next r w hf =>
     obtain ⟨f, hfc, hr⟩ := findLoop_member _ _ hf
-    have u : SUpd L0 syms (if w = true then pin syms r else syms) := by
+    have u : SUpd L0 syms (if w = true then pinLinks (syms.length + 1) syms r else syms) := by
       split
-      · exact SUpd.pin (hm f hfc r hr)
+      · exact SUpd.pinLinks _ _ _ (hm f hfc r hr) hlo
       · exact SUpd.refl _ _
     refine ⟨u, ?_⟩
     intro f' hf' m hm'
@@ -317,7 +332,7 @@ theorem VLab.find {L0 : Nat} {c c' : VCtx} (h : VLab L0 c) {n : Name} {chain' : 
     (hs : setChain { c with st := { c.st with syms := syms', refs := c.st.refs ++ [r] } } (chain'.map g) = some c') :
     VLab L0 c' ∧ SUpd L0 c.st.syms c'.st.syms := by
   obtain ⟨hch, ht, hd, hst⟩ := setChain_spec hs
-  obtain ⟨u, hm⟩ := findSymbol_supd (L0 := L0) (c.cur :: c.below) c.st.syms n h.mem
+  obtain ⟨u, hm⟩ := findSymbol_supd (L0 := L0) (c.cur :: c.below) c.st.syms n h.mem h.links
   have hlab := findSymbol_labels (c.cur :: c.below) c.st.syms n
   rw [hfs] at u hm hlab
   simp only at u hm hlab
